@@ -153,7 +153,10 @@ def function_sources(m):
     for f in m["funcs"]:
         kw = [a for a in f["args"] if a in (f.get("kwonly") or [])]
         pos = [a for a in f["args"] if a not in kw]
-        args = ", ".join(pos + (["*"] + kw if kw else []))      # def f(a, b, *, k): keyword-only arguments
+        dflt = f.get("defaults") or {}                          # def f(a, b, k=3.0): a default that params overrides
+        pos = [a for a in pos if a not in dflt] + [a for a in pos if a in dflt]
+        wd = lambda a: f"{a}={float(fr(dflt[a]))!r}" if a in dflt else a  # noqa: E731
+        args = ", ".join([wd(a) for a in pos] + (["*"] + [wd(a) for a in kw] if kw else []))      # def f(a, b, *, k): keyword-only arguments
         if f["kind"] == "stoch":
             out[f["name"]] = f"@lcm.mark.stochastic\ndef {f['name']}({args}):\n    pass\n"
         else:
